@@ -277,6 +277,24 @@ pub fn check(c: &Case) -> CheckResult {
     o.class_if(matches!(c.path.ops.first(), Some(POp::Q(..) | POp::C(..))), "curve-first");
     o.class_if(c.path.ops.iter().filter(|p| matches!(p, POp::M(..))).count() > 1, "multi-subpath");
     o.class_if(ncurves >= 2, "multi-curve");
+    {
+        // a MoveTo whose target is exactly the end point of the op before it (not the first op)
+        let mut cur: Option<(f32, f32)> = None;
+        let mut hit = false;
+        for (i, op) in c.path.ops.iter().enumerate() {
+            match *op {
+                POp::M(x, y) => {
+                    if i > 0 && cur == Some((x, y)) {
+                        hit = true;
+                    }
+                    cur = Some((x, y));
+                }
+                POp::L(x, y) | POp::Q(_, _, x, y) | POp::C(_, _, _, _, x, y) => cur = Some((x, y)),
+                POp::Z => cur = None,
+            }
+        }
+        o.class_if(hit, "moveto-to-current-point");
+    }
     Ok(o)
 }
 
@@ -335,7 +353,16 @@ pub fn ops_strategy(coord: fn() -> BoxedStrategy<f32>, maxops: usize) -> BoxedSt
                         }
                         last = Some((*x, *y));
                     }
-                    POp::M(x, y) | POp::L(x, y) => last = Some((*x, *y)),
+                    POp::M(x, y) | POp::L(x, y) => {
+                        // a move_to / line_to to exactly the point the path is already at
+                        if d == 0 {
+                            if let Some(l) = last {
+                                *x = l.0;
+                                *y = l.1;
+                            }
+                        }
+                        last = Some((*x, *y));
+                    }
                     POp::Z => {}
                 }
             }
@@ -438,7 +465,7 @@ pub fn property(_ctx: &Ctx) -> Property {
         rule: "part ops: paths of 1-10 ops in any order (curve first, directly after Close, after MoveTo, consecutive closes), control points in +-200 with degenerate variants (coincident, collinear, control = end), tolerance in {0.01,0.05,0.1,0.25,1,4}; oracle = structural match of flatten() output against the input (MoveTo/LineTo/Close preserved in order; each curve replaced by >=1 LineTo ending exactly at its end point), every replacing vertex on the f64 curve *from its true starting point* (cursor after Close = subpath start) in parameter order, Hausdorff deviation <= 8 x tolerance, and deviation at tolerance/4 <= max(deviation, 8 x tolerance/4). part use: fill(path) vs fill(flatten(path,0.05)) identical farther than 1.5 px (+ pixel radius) from the f64 outline, contains_point agrees farther than 8 x tolerance from it. Non-trivial: >=1 curve; distinct by hash of the case.",
         assumptions: vec!["vertex-on-curve tolerance 1e-4*scale+1e-4 (observed 2e-6*scale)", "the statement does not say flatten keeps the winding rule, so it is not demanded"],
         parts: vec![part_outside_c07("ops", 24_000, 1_500_000, strategy, check), part("use", 6_000, 300_000, use_strategy, check_use)],
-        min_class_fraction: vec![("ops", "curve-after-close", 0.1), ("ops", "curve-first", 0.1), ("ops", "multi-curve", 0.3), ("use", "draw-after-close", 0.1)],
+        min_class_fraction: vec![("ops", "curve-after-close", 0.1), ("ops", "curve-first", 0.1), ("ops", "multi-curve", 0.3), ("ops", "moveto-to-current-point", 0.05), ("use", "draw-after-close", 0.1)],
         panic_is_violation: false,
     }
 }
